@@ -6,6 +6,10 @@ _NOTE = ("Bounded: holds for all values within the bounds recorded in the eviden
 _TECH = "symbolic execution of the real Python code on z3-backed proxy values (BV64/Float64/Real), branch decisions and obligations decided by z3, counterexamples replayed concretely"
 
 CLAIMS = {
+    "C07": {
+        "text": "Bounded symbolic model checking of the whole real socket on a virtual-time loop against fault scripts: each step is a solver-enumerated choice from {refuse, accept with symbolic latency} x {peer EOF, reset, garbage, bad CRC, truncated frame, undecodable frame, write error, unencodable message queued, raising subscriber, nop}, two steps may land in one loop turn, the user's send instant is a z3 Real; after every script (full alphabet depth <=3 quick / 4 thorough, write-fault and receive-side alphabets deeper) the client must be connected, deliver a probe frame, transmit a probe command, never have held two transports, have closed every abandoned one, and no socket task may have died.",
+        "note": _NOTE, "technique": _TECH, "design_ref": "DESIGN.md section 6 C07",
+    },
     "C02": {
         "text": "Bounded symbolic model checking of the real socket's retry logic on a virtual-time loop: write faults on a solver-chosen subset of the first 4-5 writes, peer resets, refusals and reconnect latencies and lifetimes as z3 Reals (the solver places reconnects exactly at expiry); every frame instance at the console is counted and time-stamped: at most 1+retries instances, none at or after expiry, no re-send after a successful write, a failed idempotent message is first on the next connection.",
         "note": _NOTE + " The API-level policy choice per public command is checked behaviourally in the same harness family (fault on the command's first write).", "technique": _TECH, "design_ref": "DESIGN.md section 6 C02",
